@@ -203,15 +203,16 @@ def register(reg, repo):
               returns_type="str", note="name of a dependency (AsyncTask.to_str / BatchItemBase.to_str, both under contract: never raise)"))
     reg.add(C(T + "collect_perf_stats", modifies=["perf_stats", "_name", "$alloc", "$llen", "$litem", "$dhas", "$dget", "$olen", "$okey", "$oval"],
               types={"t": "FutureBase"}, calls={"t.to_str": T + "to_str!virtual"},
-              post=["fresh(self.perf_stats)"], xpost=None,
+              post=["fresh(self.perf_stats)", "only_fresh('$llen', '$litem', '$dhas', '$dget', '$olen', '$okey', '$oval')"], xpost=None,
               invariants={1: ["_it1 is self._dependencies", "exact(_c1, list)", "fresh(_c1)",
+                              "only_fresh('$llen', '$litem', '$dhas', '$dget', '$olen', '$okey', '$oval')",
                               "len(self._dependencies) == old(len(self._dependencies))",
                               "all(self._dependencies[j] is old(self._dependencies[j]) for j in range(0, len(self._dependencies)))",
                               "inv()", "two_state('old')"]},
               labels={"loop_mutates": {1: ["_c1"]}, ("xpost", 0): "profiling-never-raises",
                       },
               note="COLLECT_PERF_STATS only: builds the task's statistics record; must not fail or touch anything a program observes"))
-    reg.add(C(T + "dump_perf_stats", modifies=["stats_log", "$dhas", "$dget", "$olen", "$okey", "$oval", "$llen", "$litem"],
+    reg.add(C(T + "dump_perf_stats", modifies=["stats_log", "$dhas", "$dget", "$olen", "$okey", "$oval"],
               assumes=["exact(self.perf_stats, dict)", "alloc(self.perf_stats)",
                        "all(t._contexts is not self.perf_stats for t in objs(AsyncTask))"],
               calls={"profiler.append": "profiler.append"},
